@@ -32,6 +32,13 @@ def case_product(h, tier="thorough"):
     return [dict(zip(keys, combo)) for combo in itertools.product(*lists)]
 
 
+def _dec(x):
+    """a Python float bound means its decimal literal (0.3 is 3/10), like float literals in the source"""
+    if isinstance(x, float):
+        return Fraction(repr(x))
+    return Fraction(x)
+
+
 def case_name(case):
     if not case:
         return ""
@@ -84,7 +91,7 @@ def make_input(E, name, dom, case):
         return SInt(t, None, dom.lo, dom.hi), dec
     if isinstance(dom, api.RealRange):
         t = z3.Real(name)
-        lo, hi = Fraction(dom.lo), Fraction(dom.hi)
+        lo, hi = _dec(dom.lo), _dec(dom.hi)
         E.real_boxes[name] = (lo, hi)
         E.ps.add(z3.And(t >= z3.Q(lo.numerator, lo.denominator), t <= z3.Q(hi.numerator, hi.denominator)))
 
@@ -94,6 +101,21 @@ def make_input(E, name, dom, case):
                 v = v.approx(30)
             return {"frac": "%s/%s" % (v.numerator_as_long(), v.denominator_as_long())}
         return SReal(t), dec
+    if isinstance(dom, api.RealVec):
+        lo, hi = _dec(dom.lo), _dec(dom.hi)
+        ts = [z3.Real("%s_%d" % (name, i)) for i in range(dom.n)]
+        for t in ts:
+            E.ps.add(z3.And(t >= z3.Q(lo.numerator, lo.denominator), t <= z3.Q(hi.numerator, hi.denominator)))
+
+        def dec(m, ts=ts):
+            out = []
+            for t in ts:
+                v = m.eval(t, model_completion=True)
+                if z3.is_algebraic_value(v):
+                    v = v.approx(30)
+                out.append({"frac": "%s/%s" % (v.numerator_as_long(), v.denominator_as_long())})
+            return out
+        return E.new_heap(SList([SReal(t) for t in ts])), dec
     if isinstance(dom, api.Bool):
         t = z3.Bool(name)
 
